@@ -331,6 +331,40 @@ def run(M, rep, tier, only=None):
                     bad = (p, "the array is created with a shape that derives neither from `shape` nor from the data")
         rep.check(R4, "Block.create_data_array", bad is None and n > 0, bad[1] if bad else "no path writes the given data", site=f.file + ":%d" % f.node.lineno,
                   detail=describe_path(bad[0], 30) if bad else None)
+        # the shape argument must equal the shape of the data exactly (no broadcasting): evaluate the extracted guard
+        allp = oc.paths(f, "Block", max_paths=40000)
+        for shp, dshp in (((4,), (4,)), ((4, 4), (4, 4)), ((4,), (4, 4)), ((4, 4), (4,)), ((3,), (3, 3, 3)), ((4, 5), (5, 4)), ((1, 1, 1), (10,)), ((2, 3), (2, 3))):
+            def leaf(t, shp=shp, dshp=dshp):
+                if t == ("param", "shape"):
+                    return shp
+                if t[0] == "attr" and t[2] == "shape" and "data" in params_of(t[1]):
+                    return dshp
+                return NOTHING
+            te = TermEval(leaf)
+            created = refused = 0
+            for p in allp:
+                rel = [(a, v) for a, v in p.decisions if "shape" in params_of(a) and any(
+                    x and x[0] == "attr" and x[2] == "shape" and "data" in params_of(x[1]) for x in subterms(a))]
+                if not rel:
+                    continue
+                try:
+                    if not all(te.atom(a) == v for a, v in rel):
+                        continue
+                except Unknown as e:
+                    raise AnalysisError("C01.R4: the shape check of create_data_array depends on an unmodelled condition (%s)" % e)
+                except (TypeError, ValueError):
+                    continue
+                if any(e.kind == "ocall" and e.op.endswith("DataArray.create_new") for e in p.events):
+                    created += 1
+                elif p.terminal[0] == "raise" and p.terminal[1].cls == "ValueError":
+                    refused += 1
+            key = "create_data_array(shape=%r, data of shape %r)" % (shp, dshp)
+            if shp == dshp:
+                rep.check(R4, key, created > 0, "a matching shape argument is refused", site=f.file + ":%d" % f.node.lineno)
+            else:
+                rep.check(R4, key, created == 0 and refused > 0, "a shape argument %r that differs from the data's shape %r is accepted (%d creating "
+                          "path(s)): the array is created with the wrong extent and the following write fails, leaving the half-made array behind" % (
+                              shp, dshp, created), site=f.file + ":%d" % f.node.lineno)
 
     # ---------------------------------------------------------------- R5
     if ds is not None:
